@@ -62,13 +62,19 @@ pub fn emit(body: &str) {
     l.buf.push_str(body);
     l.buf.push_str("}\n");
     l.lines += 1;
-    if l.buf.len() > (1 << 19) {
+    if l.buf.len() > (1 << 19) || flush_each() {
         let Log { buf, out, .. } = &mut *l;
         if let Some(f) = out {
             f.write_all(buf.as_bytes()).expect("HARNESS: write");
         }
         buf.clear();
     }
+}
+
+fn flush_each() -> bool {
+    use std::sync::OnceLock;
+    static F: OnceLock<bool> = OnceLock::new();
+    *F.get_or_init(|| std::env::var_os("GAH_FLUSH").is_some())
 }
 
 pub fn ids(v: &[i64]) -> String {
